@@ -150,6 +150,13 @@ def edgesOfFn (cls : List Nat) (tbl : AcqTbl) (sig : Sig) (f : Nat) (body : Stmt
     | .error _ => []
     | .ok (_, es) => es
 
+/-- Classes reachable from `from_` in at most `fuel` steps (including `from_`). -/
+def reachSet (es : Edges) : Nat → List Nat → List Nat
+  | 0, seen => seen
+  | fuel + 1, seen =>
+    let next := es.filterMap (fun e => if seen.contains e.1 && !seen.contains e.2 then some e.2 else none)
+    if next.isEmpty then seen else reachSet es fuel (seen ++ next.eraseDups)
+
 /-- Explanation of a failed `class_graph_ok`: every acquired-while-holding edge along which
 the computed rank does not increase (the edges on cycles, and same-class nesting), with the
 functions in which the pair occurs. Empty iff the obligation holds. -/
@@ -158,8 +165,8 @@ def explainEdges (nm : Names) (className : Nat → String) (nClasses : Nat) (cls
   match edgesProg cls tbl sig prog [] with
   | none => []   -- some function fails its lock-balance obligation; that is reported by `explainAll`
   | some es =>
-    let ranks := rankTable nClasses es
-    let bad := es.filter (fun e => !(rankOf ranks e.1 < rankOf ranks e.2))
+    -- the edges that lie on a cycle (self-loops included)
+    let bad := es.filter (fun e => (reachSet es nClasses [e.2]).contains e.1)
     bad.map (fun e =>
       let fns := prog.filter (fun fb => (edgesOfFn cls tbl sig fb.1 fb.2).contains e)
       s!"a lock of class {className e.2} is acquired (blocking) while one of class {className e.1} is held, which closes a cycle in the lock-class graph or nests two locks of one class without a LockPile; in: " ++
